@@ -29,13 +29,18 @@
 (*   unlink  i, res ok|noent|fault                                               *)
 (*   end     res ok|raised                control returns to the caller          *)
 (*   crash                                the writer's process is killed         *)
+(*   reenter                              the returned writer object is entered  *)
+(*                                        again (next round, same destination)   *)
 EXTENDS Integers, FiniteSets, Sequences
 
 Terminal == {"done", "failed", "dead"}
 Holding == {"body", "closing", "renaming", "unlinking"}   \* owns a temp file it must still deal with
 
+\* round = how often this writer object has been entered; base = what its destination held when
+\* the current round began; the complete contents of round k are the class NewName(k)
 NewWriter == [pc |-> "idle", i |-> 0, acc |-> 0, raw |-> 0, ended |-> FALSE, err |-> "none",
-              lossy |-> FALSE, cerr |-> FALSE, leak |-> FALSE, ret |-> FALSE]
+              lossy |-> FALSE, cerr |-> FALSE, leak |-> FALSE, ret |-> FALSE, round |-> 1, base |-> "absent"]
+NewName(k) == IF k = 1 THEN "new" ELSE IF k = 2 THEN "new2" ELSE "new3"
 
 HasTmp(st, k) == k \in DOMAIN st.tmp
 AddTmp(t, k, v) == [j \in DOMAIN t \cup {k} |-> IF j = k THEN v ELSE t[j]]
@@ -48,7 +53,9 @@ Complete(r) == r.ended /\ r.raw = r.acc /\ ~r.lossy
 (* ---- name of the clause that forbids it                                       *)
 Guard(st, e) ==
     LET r == st.wr[e.w] IN
-    IF r.ret THEN "returned"
+    \* the same writer object is entered again after it has returned ("can be repeated")
+    IF e.op = "reenter" THEN (IF r.ret /\ r.pc \in {"done", "failed"} THEN "" ELSE "reenter.pc")
+    ELSE IF r.ret THEN "returned"
     ELSE IF e.res = "fault" /\ st.faults = 0 THEN "fault.budget"
     ELSE CASE e.op = "mkdir" ->
                 IF r.pc # "idle" THEN "mkdir.pc"
@@ -133,27 +140,35 @@ Apply(st0, e) ==
               IF flt THEN SetW(st, w, [r EXCEPT !.pc = "unlinking", !.err = "os"])
               ELSE [SetW(st, w, [r EXCEPT !.pc = "done"])
                         EXCEPT !.tmp = DelTmp(@, r.i),
-                               !.dest[w] = IF Complete(r) THEN "new" ELSE "bad"]
+                               !.dest[w] = IF Complete(r) THEN NewName(r.round) ELSE "bad"]
          [] e.op = "unlink" ->
               IF flt THEN SetW(st, w, [r EXCEPT !.pc = "failed", !.leak = TRUE])
               ELSE [SetW(st, w, [r EXCEPT !.pc = "failed"]) EXCEPT !.tmp = DelTmp(@, r.i)]
          [] e.op = "end" -> SetW(st, w, [r EXCEPT !.ret = TRUE])
          [] e.op = "crash" -> SetW(st, w, [r EXCEPT !.pc = "dead"])
+         \* a new round: the scan for a free temp name starts again at 1; a temp this writer could not
+         \* unlink in an earlier round is from now on just a file lying around
+         [] e.op = "reenter" ->
+              [SetW(st, w, [NewWriter EXCEPT !.round = r.round + 1, !.base = st.dest[w]])
+                  EXCEPT !.tmp = [k \in DOMAIN st.tmp |->
+                                     IF st.tmp[k].owner = w THEN [st.tmp[k] EXCEPT !.owner = "stale"] ELSE st.tmp[k]]]
 
 (* ---- the listed property, as state predicates over st ------------------------- *)
-\* orig[w] is what the destination held before ("old" or "absent")
-DestIntact(st, orig) == \A w \in DOMAIN st.wr : st.dest[w] \in {orig[w], "new"}
+\* wr[w].base is what the destination held when the current round began
+DestIntact(st) == \A w \in DOMAIN st.wr : st.dest[w] \in {st.wr[w].base, NewName(st.wr[w].round)}
 OwnTmps(st, w) == {k \in DOMAIN st.tmp : st.tmp[k].owner = w}
-FailedClean(st, orig) == \A w \in DOMAIN st.wr :
-    st.wr[w].pc = "failed" => st.dest[w] = orig[w] /\ (OwnTmps(st, w) = {} \/ st.wr[w].leak)
-DoneNew(st) == \A w \in DOMAIN st.wr : st.wr[w].pc = "done" => st.dest[w] = "new" /\ OwnTmps(st, w) = {}
+FailedClean(st) == \A w \in DOMAIN st.wr :
+    st.wr[w].pc = "failed" => st.dest[w] = st.wr[w].base /\ (OwnTmps(st, w) = {} \/ st.wr[w].leak)
+DoneNew(st) == \A w \in DOMAIN st.wr :
+    st.wr[w].pc = "done" => st.dest[w] = NewName(st.wr[w].round) /\ OwnTmps(st, w) = {}
 \* two writers never hold the same temp name, and the name a writer holds is a file it created
 NoSharedTemp(st) == \A w, v \in DOMAIN st.wr :
     (w # v /\ st.wr[w].pc \in Holding /\ st.wr[v].pc \in Holding) => st.wr[w].i # st.wr[v].i
 HoldsOwn(st) == \A w \in DOMAIN st.wr :
     st.wr[w].pc \in Holding => HasTmp(st, st.wr[w].i) /\ st.tmp[st.wr[w].i].owner = w
 \* a dead writer leaves its destination as it was or complete (its temp may remain: not a handled failure)
-DeadIntact(st, orig) == \A w \in DOMAIN st.wr : st.wr[w].pc = "dead" => st.dest[w] \in {orig[w], "new"}
+DeadIntact(st) == \A w \in DOMAIN st.wr :
+    st.wr[w].pc = "dead" => st.dest[w] \in {st.wr[w].base, NewName(st.wr[w].round)}
 
 (* ---- what an observer sees in the directory ----------------------------------- *)
 \* ls = [dir, d, tmp]: d[w] contents class of the destination, tmp = set of <<index, nonempty>>
